@@ -21,7 +21,7 @@ def showSlot (s : State) (k : Nat) : String :=
 
 def dump (s : State) : String :=
   showPool 0 s.pool0 ++ showPool 1 s.pool1 ++ " | M" ++
-  String.join ((List.range NSLOT).map (showSlot s)) ++ s!" | D {s.dev.alloc} {s.dev.max}"
+  String.join ((List.range NSLOT).map (showSlot s)) ++ s!" | D {s.dev.alloc} {s.dev.maxAlloc}"
 
 def showRes : Res → String
   | .ok => "ok" | .err => "err" | .empty => "empty" | .badOp => "bad-op" | .trap => "trap"
